@@ -30,14 +30,14 @@ vars == <<row, W, ice, i, r, wrapped, covered, toks, done, c>>
 
 Cell(k) == Alphabet[row[k]]
 Target(k) == TargetRendition(Cell(k), ice, Pal)
-Apply(rd, ts) == Read(rd, W, ts, 1)
+Apply(rd, ts) == ReadFrom(rd, W, ts)
 
 Init ==
   /\ row \in Rows /\ ice \in IceModes
   /\ W \in {IF Len(row) = 0 THEN 1 ELSE Len(row), Len(row) + 1}
   /\ i = 1 /\ wrapped = FALSE /\ covered = 0 /\ done = FALSE /\ c = 0
   /\ toks = IF ice = "ice" THEN << <<1, 104, 63, 0, 33>> >> ELSE <<>>
-  /\ r = Read(R0, W, toks, 1)
+  /\ r = ReadFrom(R0, W, toks)
 
 SameRun(k) == CHOOSE n \in 1..(Len(row) - k + 1) : (\A j \in 0..(n - 1) : row[k + j] = row[k]) /\ (k + n > Len(row) \/ row[k + n] # row[k])
 SkipRun(k) == CHOOSE n \in 0..(Len(row) - k + 1) : (\A j \in 0..(n - 1) : Skippable(Cell(k + j), ice, Pal)) /\ (k + n > Len(row) \/ ~Skippable(Cell(k + n), ice, Pal))
